@@ -205,18 +205,40 @@ pub fn run_case(case: &Value, opts: &Opts, style_seed: Option<u64>) -> Value {
         if opts.via_fs {
             // through the file system and pyxis::build (C14)
             let root = emit_dir.clone().expect("--via-fs needs --emit-dir");
-            let in_dir = root.join("in");
+            let in_dir = root.join("input");
             let out_dir = root.join("out");
             for (m, text) in mods.iter().zip(&texts) {
                 let mut p = in_dir.clone();
-                for seg in arr(&m["path"]) {
+                let segs = arr(&m["path"]);
+                for seg in &segs[..segs.len().saturating_sub(1)] {
                     p.push(s(seg));
                 }
-                p.set_extension("pyxis");
+                // not set_extension: the stem may contain dots
+                p.push(format!("{}.pyxis", segs.last().map(s).unwrap_or("")));
                 std::fs::create_dir_all(p.parent().unwrap()).unwrap();
                 std::fs::write(&p, text).unwrap();
             }
             std::fs::create_dir_all(&in_dir).unwrap();
+            // the input directory may be spelled relative to the current directory, with `./` or a trailing slash
+            let saved_cwd = std::env::current_dir().unwrap();
+            let in_dir = match s(&input["indir"]) {
+                "dot" => {
+                    std::env::set_current_dir(&root).unwrap();
+                    PathBuf::from("./input")
+                }
+                "trailing" => {
+                    std::env::set_current_dir(&root).unwrap();
+                    PathBuf::from("input/")
+                }
+                _ => in_dir.clone(),
+            };
+            struct Restore(PathBuf);
+            impl Drop for Restore {
+                fn drop(&mut self) {
+                    let _ = std::env::set_current_dir(&self.0);
+                }
+            }
+            let _restore = Restore(saved_cwd);
             if opts.dirty_out {
                 // the output directory already holds the result of another build (the other pointer width)
                 let _ = pyxis::build(&in_dir, &out_dir, if ptr == 8 { 4 } else { 8 });
